@@ -8,6 +8,7 @@ Lists are comma separated without blanks, `-` is the empty list (rank 0).
 * `iter <dims>`                       — `t[idx] = code(idx)` for every index, then `iter()`
 * `eq   <dimsA> <dimsB> <dataA> <dataB>`
 * `write <ty> <dims> <data>`          — `ty` ∈ i64 | str; the bytes of `Writable` (blank → `_`, newline → `/`)
+* `debug <dims> <data>`               — `{:?}` of an `i64` tensor
 * `rt   <ty> <chunk> <dims> <data>`   — write, read back through a `Reader` fed `chunk` bytes at a time
 -/
 open Rlib Rlib.Tensor
@@ -58,25 +59,31 @@ def handleAt (dims idx : List Nat) : String :=
     answer m s
 
 def handleCtor (kind : String) (dims : List Nat) (len : Nat) : String :=
-  let data : List Int := (List.range len).map (fun (k : Nat) => Int.ofNat k)
   let zero := dims.any (· == 0)
+  let big := decide (2 ^ 64 ≤ prod dims)
+  -- huge shapes are only probed with short data (the harness never allocates them)
+  if ¬ zero ∧ ¬ big ∧ kind ≠ "vec" ∧ kind ≠ "slice" ∧ prod dims > 100000 then "M INVALID | V INVALID | S any" else
+  let data : List Int := (List.range len).map (fun (k : Nat) => Int.ofNat k)
   let showT (r : Except Panic (Tensor Int)) : String :=
     match r with
     | .error e => e.toString
     | .ok t => s!"ok dims={showNats t.dims} len={t.data.length}"
+  let rej : Option String := if zero then some "panic:assert" else if big then some "panic:overflow" else none
   match kind with
   | "vec" =>
-    answer (showT (fromVec dims data)) (if zero ∨ prod dims ≠ len then "panic:assert" else s!"ok dims={showNats dims} len={len}")
+    answer (showT (fromVecU dims data))
+      (match rej with | some r => r | none => if prod dims ≠ len then "panic:assert" else s!"ok dims={showNats dims} len={len}")
   | "slice" =>
-    answer (showT (fromSlice dims data)) (if zero ∨ prod dims ≠ len then "panic:assert" else s!"ok dims={showNats dims} len={len}")
+    answer (showT (fromSliceU dims data))
+      (match rej with | some r => r | none => if prod dims ≠ len then "panic:assert" else s!"ok dims={showNats dims} len={len}")
   | "new" =>
-    answer (showT (new dims (7 : Int))) (if zero then "panic:assert" else s!"ok dims={showNats dims} len={prod dims}")
+    answer (showT (newU dims (7 : Int))) (match rej with | some r => r | none => s!"ok dims={showNats dims} len={prod dims}")
   | "read" =>
-    if ¬ zero ∧ len < prod dims then "M INVALID | V INVALID | S any" else
+    if rej.isNone ∧ len < prod dims then "M INVALID | V INVALID | S any" else
     let toks : List (List Char) := data.map (fun k => (toString k).toList)
-    let r := read dims (tokRd (fun cs => (String.ofList cs).toInt?.getD 0) (0 : Int)) toks
+    let r := readU dims (tokRd (fun cs => (String.ofList cs).toInt?.getD 0) (0 : Int)) toks
     answer (showT (match r with | .error e => .error e | .ok (t, _) => .ok t))
-      (if zero then "panic:assert" else s!"ok dims={showNats dims} len={prod dims}")
+      (match rej with | some r => r | none => s!"ok dims={showNats dims} len={prod dims}")
   | _ => "M INVALID | V INVALID | S any"
 
 def handleIter (dims : List Nat) : String :=
@@ -115,6 +122,21 @@ def handleWrite (ty : String) (dims : List Nat) (data : List String) : String :=
       | .error e => e.toString
       | .ok cs => escape cs
     let s := escape (renderPieces (renderTok ty) (specPieces dims data))
+    answer m s
+
+def handleDebug (dims : List Nat) (data : List String) : String :=
+  if ¬ allPos dims ∨ prod dims ≠ data.length ∨ ¬ data.all (validTok "i64") then "M INVALID | V INVALID | S any" else
+  match fromVec dims data with
+  | .error e => answer e.toString "any"
+  | .ok t =>
+    let render := renderTok "i64"
+    let m := match debugText render t with
+      | .error e => e.toString
+      | .ok cs => escape cs
+    let D := dims.length
+    let viaPieces := List.replicate D '[' ++ ((specPieces dims data).map (renderPieceDbg render)).flatten ++ List.replicate D ']'
+    -- cross-check (tested, not proved): the separator-count form is the nested-list layout
+    let s := if viaPieces = nested render dims data then escape viaPieces else "SPEC-SELFCHECK-FAILED"
     answer m s
 
 def handleRt (ty : String) (dims : List Nat) (data : List String) : String :=
@@ -157,6 +179,10 @@ def handle (line : String) : String :=
   | ["write", ty, d, x] =>
     match parseNatsComma? d, parseList? x with
     | some dims, some data => handleWrite ty dims data
+    | _, _ => badLine line
+  | ["debug", d, x] =>
+    match parseNatsComma? d, parseList? x with
+    | some dims, some data => handleDebug dims data
     | _, _ => badLine line
   | ["rt", ty, _chunk, d, x] =>
     match parseNatsComma? d, parseList? x with
